@@ -1,7 +1,7 @@
 //! Limb multiplication
 
 use crate::{
-    Checked, CheckedMul, Limb, Wrapping, Zero,
+    Checked, CheckedMul, ConstChoice, Limb, Word, Wrapping, Zero,
     primitives::{mac, mul_wide},
 };
 use core::ops::{Mul, MulAssign};
@@ -19,7 +19,9 @@ impl Limb {
     /// Perform saturating multiplication.
     #[inline(always)]
     pub const fn saturating_mul(&self, rhs: Self) -> Self {
-        Limb(self.0.saturating_mul(rhs.0))
+        // `Word::saturating_mul` compiles to a branch on the (secret) overflow condition
+        let (lo, hi) = self.mul_wide(rhs);
+        Limb(ConstChoice::from_word_nonzero(hi.0).select_word(lo.0, Word::MAX))
     }
 
     /// Perform wrapping multiplication, discarding overflow.
